@@ -406,12 +406,21 @@ OPTIONS:
 			intf.Description = string(r.currentOption.value)
 		case ngOptionCodeInterfaceFilter:
 			// ignore filter type (first byte) since it is not specified
+			if len(r.currentOption.value) < 1 {
+				return errors.New("if_filter option too short")
+			}
 			intf.Filter = string(r.currentOption.value[1:])
 		case ngOptionCodeInterfaceOS:
 			intf.OS = string(r.currentOption.value)
 		case ngOptionCodeInterfaceTimestampOffset:
+			if len(r.currentOption.value) < 8 {
+				return errors.New("if_tsoffset option too short")
+			}
 			intf.TimestampOffset = r.getUint64(r.currentOption.value[:8])
 		case ngOptionCodeInterfaceTimestampResolution:
+			if len(r.currentOption.value) < 1 {
+				return errors.New("if_tsresol option too short")
+			}
 			intf.TimestampResolution = NgResolution(r.currentOption.value[0])
 		}
 	}
@@ -601,10 +610,16 @@ OPTIONS:
 		case ngOptionCodeComment:
 			opts.Comments = append(opts.Comments, string(r.currentOption.value))
 		case ngOptionCodeEpbFlags:
+			if len(r.currentOption.value) < 4 {
+				return opts, errors.New("epb_flags option too short")
+			}
 			flags := NgEpbFlags{}
 			flags.FromUint32(binary.LittleEndian.Uint32(r.currentOption.value))
 			opts.Flags = &flags
 		case ngOptionCodeEpbHash:
+			if len(r.currentOption.value) < 1 {
+				return opts, errors.New("epb_hash option too short")
+			}
 			v := make([]byte, len(r.currentOption.value)-1)
 			copy(v, r.currentOption.value[1:])
 			opts.Hashes = append(opts.Hashes, NgEpbHash{
@@ -612,15 +627,27 @@ OPTIONS:
 				Hash:      v,
 			})
 		case ngOptionCodeEpbDropCount:
+			if len(r.currentOption.value) < 8 {
+				return opts, errors.New("epb_dropcount option too short")
+			}
 			v := binary.LittleEndian.Uint64(r.currentOption.value)
 			opts.DropCount = &v
 		case ngOptionCodeEpbPacketID:
+			if len(r.currentOption.value) < 8 {
+				return opts, errors.New("epb_packetid option too short")
+			}
 			v := binary.LittleEndian.Uint64(r.currentOption.value)
 			opts.PacketID = &v
 		case ngOptionCodeEpbQueue:
+			if len(r.currentOption.value) < 4 {
+				return opts, errors.New("epb_queue option too short")
+			}
 			v := binary.LittleEndian.Uint32(r.currentOption.value)
 			opts.Queue = &v
 		case ngOptionCodeEpbVerdict:
+			if len(r.currentOption.value) < 1 {
+				return opts, errors.New("epb_verdict option too short")
+			}
 			v := make([]byte, len(r.currentOption.value)-1)
 			copy(v, r.currentOption.value[1:])
 			opts.Verdicts = append(opts.Verdicts, NgEpbVerdict{
